@@ -269,4 +269,47 @@ example : (parseConfig "[policy_effect]\ne = some(where (p.eft == allow)) && \\\
 /-- regression for the repaired blank-after-closing-quote defect (F19) -/
 example : parseCsvLine "p, \"a, b\" , c".toList = some ["p".toList, "a, b".toList, "c".toList] := by decide +kernel
 
+/-! ### Trailing comments on definition lines -/
+
+theorem takeWhile_append_hash (a c : Str) (ha : ∀ x ∈ a, x ≠ '#') :
+    (a ++ '#' :: c).takeWhile (· ≠ '#') = a := by
+  induction a with
+  | nil => simp
+  | cons x t ih =>
+    have hx : x ≠ '#' := ha x (by simp)
+    simp only [List.cons_append, List.takeWhile, hx, ne_eq, not_false_eq_true, decide_true]
+    rw [ih (fun y hy => ha y (by simp [hy]))]
+
+theorem takeWhile_no_hash (a : Str) (ha : ∀ x ∈ a, x ≠ '#') : a.takeWhile (· ≠ '#') = a := by
+  induction a with
+  | nil => rfl
+  | cons x t ih =>
+    have hx : x ≠ '#' := ha x (by simp)
+    simp only [List.takeWhile, hx, ne_eq, not_false_eq_true, decide_true]
+    rw [ih (fun y hy => ha y (by simp [hy]))]
+
+theorem trimR_append_ws_gen (s ws : Str) (h : ∀ c ∈ ws, isWs c = true) : trimR (s ++ ws) = trimR s := by
+  unfold trimR
+  rw [List.reverse_append, dw_append isWs ws.reverse _ (by intro c hc; exact h c (List.mem_reverse.mp hc))]
+
+/-- **a trailing comment does not change a definition**: whatever follows the first `#` on a definition line — more
+`#`, `=`, commas — and any blanks before it are dropped; the assertion loaded (key, value, tokens) is the one of the
+bare line -/
+theorem trailing_comment_ignored (sec key v ws c : Str) (hv : ∀ x ∈ v, x ≠ '#') (hws : ∀ x ∈ ws, isWs x = true) :
+    addDef sec key (v ++ ws ++ '#' :: c) = addDef sec key v := by
+  have hvw : ∀ x ∈ v ++ ws, x ≠ '#' := by
+    intro x hx
+    rcases List.mem_append.mp hx with h | h
+    · exact hv x h
+    · intro he; subst he; have := hws '#' h; simp [isWs] at this
+  have hrc : removeComment (v ++ ws ++ '#' :: c) = removeComment v := by
+    unfold removeComment
+    rw [takeWhile_append_hash (v ++ ws) c hvw, takeWhile_no_hash v hv, trimR_append_ws_gen v ws hws]
+  unfold addDef
+  simp only [hrc]
+
+example : addDef "p".toList "p".toList "sub, obj, act   # see issue #12, a = b".toList = addDef "p".toList "p".toList "sub, obj, act".toList :=
+  trailing_comment_ignored "p".toList "p".toList "sub, obj, act".toList "   ".toList " see issue #12, a = b".toList
+    (by intro x hx; revert x; decide +kernel) (by intro x hx; revert x; decide +kernel)
+
 end Casbin.C16
